@@ -378,6 +378,33 @@ def analyse_shared_state(tree):
                 if t is None or param_derived(key):
                     continue
                 out.append(MemoFinding(fn.name, n.lineno, t, ["<every later call>"], f"module-level table modified in place ({'through the alias, ' if not (isinstance(getattr(n, 'func', None), ast.Attribute) and isinstance(n.func.value, ast.Name) and n.func.value.id == t) else ''}under a key that does not derive from the arguments): the first call changes what all later calls see"))
+    # (C) a default argument that is an object built once at definition time (a literal container or any constructor call)
+    #     and that the function modifies: every call that relies on the default works on what earlier calls left in it
+    for fn in ast.walk(tree):
+        if not isinstance(fn, (ast.FunctionDef, ast.AsyncFunctionDef)):
+            continue
+        a = fn.args
+        pos = a.posonlyargs + a.args
+        pairs = list(zip(pos[len(pos) - len(a.defaults):], a.defaults)) + [(p_, d_) for p_, d_ in zip(a.kwonlyargs, a.kw_defaults) if d_ is not None]
+        for p_, d_ in pairs:
+            shared = mutable_literal(d_) or (isinstance(d_, ast.Call) and not (isinstance(d_.func, ast.Name) and d_.func.id in ("tuple", "frozenset", "float", "int", "str", "bool", "object", "field")) and ast.unparse(d_.func).split(".")[-1] not in ("field", "MappingProxyType"))
+            if not shared:
+                continue
+            name = p_.arg
+            rebound_first = False
+            for n in ast.walk(fn):
+                hit = None
+                if isinstance(n, ast.Call) and isinstance(n.func, ast.Attribute) and isinstance(n.func.value, ast.Name) and n.func.value.id == name and (n.func.attr in MUTATORS or n.func.attr in ("fill", "resize", "put", "itemset", "add_many")):
+                    hit = f"{name}.{n.func.attr}(...)"
+                elif isinstance(n, (ast.Assign, ast.AugAssign)):
+                    for tg in (n.targets if isinstance(n, ast.Assign) else [n.target]):
+                        if isinstance(tg, (ast.Subscript, ast.Attribute)) and _root(tg) == name:
+                            hit = ast.unparse(tg) + " = ..."
+                        elif isinstance(n, ast.AugAssign) and isinstance(tg, ast.Name) and tg.id == name:
+                            hit = f"{name} op= ..."
+                if hit:
+                    out.append(MemoFinding(fn.name, n.lineno, f"default of {name}", ["<every later call>"], f"the default value of `{name}` is one object created when the function is defined; {hit} modifies it, so later calls that rely on the default start from what earlier calls left there"))
+                    break
     return out
 
 
@@ -431,13 +458,20 @@ def g(t):
     need.discard("b")
 def h(k):
     return _TABLE[k]
+def d1(x, acc=[]):
+    acc.append(x)
+    return acc
+def d2(x, opts=dict()):
+    return opts.get(x)
+def d3(x, p=Params()):
+    p.add("tau", value=x)
 '''
 
 
 def selftest():
     f, _n, _k = analyse_module(ast.parse(SELFTEST_SRC), "<selftest>")
     sh = analyse_shared_state(ast.parse(SELFTEST_SHARED))
-    ok_shared = sorted((x.func, x.state) for x in sh) == [("A", "A.shared"), ("f", "_OPTS"), ("g", "_COLS")]
+    ok_shared = sorted((x.func, x.state) for x in sh) == [("A", "A.shared"), ("d1", "default of acc"), ("d3", "default of p"), ("f", "_OPTS"), ("g", "_COLS")]
     return len(f) == 1 and f[0].func == "f" and set(f[0].missing) == {"b", "c"} and ok_shared
 
 
